@@ -42,7 +42,10 @@ def _decision_script(dec):
         return [["recv"], ["send", {"type": "websocket.close"}], ["linger", 1.0]]
     if kind == "http":
         status, headers, chunks = dec[1], dec[2], dec[3]
-        sc = [["recv"], ["send", {"type": "websocket.http.response.start", "status": status, "headers": headers}]]
+        start = {"type": "websocket.http.response.start", "status": status, "headers": headers}
+        if headers is None:
+            del start["headers"]  # optional in the specification (default: none)
+        sc = [["recv"], ["send", start]]
         for i, c in enumerate(chunks):
             sc.append(["send", {"type": "websocket.http.response.body", "body": c, "more_body": i < len(chunks) - 1}])
         if not chunks:
@@ -73,7 +76,7 @@ def gen(rng, tier):
                  ("accept", None, [(b"x-extra", b"1"), (b"x-two", b"2")]),
                  ("accept", None, [(b"sec-websocket-protocol", b"chat")]), ("accept", None, [(b":status", b"200")]),
                  ("close",), ("http", 401, [(b"x-why", b"auth"), (b"content-length", b"6")], [b"de", b"ni", b"ed"]),
-                 ("http", 307, [(b"location", b"/elsewhere")], []), ("http", 200, [], [b"plain"]), ("crash",)]
+                 ("http", 307, [(b"location", b"/elsewhere")], []), ("http", 200, [], [b"plain"]), ("http", 403, None, [b"no-headers-key"]), ("crash",)]
     # ---- handshake validity product ---------------------------------------------------------
     for ver, key, conn, upg, hv, pr, ex in itertools.product(versions, keys, conns, upgs, httpvs, protos, exts):
         cases.append(("hs", ver, key, conn, upg, hv, pr, ex, rng.choice(decisions)))
@@ -364,7 +367,7 @@ def check(case, obs, tally):
             if status != 403:
                 out.append({"clause": "decision", "sig": "C11.close-not-403/h%s" % hv, "detail": "websocket.close before accept gave %r" % status})
         elif dec[0] == "http":
-            st, hs, chunks = dec[1], dec[2], dec[3]
+            st, hs, chunks = dec[1], dec[2] or [], dec[3]
             exp_body = b"".join(chunks)
             if status != st:
                 out.append({"clause": "decision", "sig": "C11.http-response/status", "detail": "status %r expected %r" % (status, st)})
